@@ -100,9 +100,9 @@ def board_path_classes(p):
         if cas is False:
             kk = d.get('(castling(move)==KING_CASTLING)')
             return ('K' if kk else 'Q', None, None, None)
-        ep_atoms = [k for k in d if '_enpassant_square' in k and 'to(move)' in k]
+        ep_atoms = [k for k in d if ('enpassant' in k) and 'to(move)' in k]
         pawn_atoms = [k for k in d if 'PAWN' in k and 'from(move)' in k]
-        ep = bool(ep_atoms) and all(d[k] for k in ep_atoms) and bool(pawn_atoms) and all(d[k] for k in pawn_atoms)
+        ep = bool(ep_atoms) and all(d[k] for k in ep_atoms) and all(d[k] for k in pawn_atoms)
         cap_atoms = [k for k in d if k.startswith('(_board[to(move)]==NO_PIECE)')]
         promo_atoms = [k for k in d if k == '(promotion(move)==NO_PIECE_KIND)']
         if ep:
